@@ -101,6 +101,12 @@ FINDINGS = [
      case("struct S { a: array<mat2x2<f32>, 2> }\n@group(0) @binding(0) var<storage, read_write> o: S;\n" + IN_F +
           "@compute @workgroup_size(1) fn main() { var s: S; s.a[1][0] = vec2(i[0], i[1]); o = s; }\n",
           {"0,0": f32(9, 9, 9, 9, 9, 9, 9, 9), "0,1": f32(5.5, 7.25)}, {"0,0": f32(0, 0, 0, 0, 5.5, 7.25, 0, 0)}, {"0,0": mask(3, 8)})),
+    ("C03-15", "front end: `x op= f()` is lowered with the call of f before the load of x (WGSL: e1 = e1 op (e2), operands left to right, so the old value of x is read first); a callee that writes x changes the result (all backends)",
+     ["compound-assign.rhs-call"],
+     # o[0] = 5; o[0] += f(): old value 5 is read, f doubles o[0] and returns 3, 5 + 3 = 8 is stored
+     case("@group(0) @binding(0) var<storage, read_write> o: array<i32, 2>;\n@group(0) @binding(1) var<storage, read> i: array<i32, 2>;\n"
+          "fn f() -> i32 { o[0] = o[0] * 2; return i[1]; }\n@compute @workgroup_size(1) fn main() { o[0] = i[0]; o[0] += f(); }\n",
+          {"0,0": u32(0, 0), "0,1": u32(5, 3)}, {"0,0": u32(8, 0)}, {"0,0": mask(1, 2)})),
 ]
 
 def main():
